@@ -76,3 +76,14 @@ Theorem C02_analyses_entail : forall db evs n,
   check_analyses db evs = (n, true) ->
   forall id c, nth_error db (N.to_nat id) = Some c -> is_learnt c = true -> learnt_entailed db id.
 Proof. exact analyses_entail. Qed.
+
+(* the clauses analyze_unsolvable collects for the report refute "root installed":
+   an Unsolvable verdict whose conflict equals the model's and whose database
+   consists of facts is a correct verdict *)
+From Resolvo Require Import Cdcl.UnsolvableProofs.
+Theorem C02_unsolvable_core_refutes : forall db evs n conf core,
+  check_analyses db evs = (n, true) ->
+  check_unsolvable db evs conf core = (true, true) ->
+  forall a : asg, a VRoot = true ->
+  (forall i c, In i core -> nth_error db (N.to_nat i) = Some c -> cl_true a (cl_lits c) = true) -> False.
+Proof. exact checked_conflict_is_refutation. Qed.
